@@ -23,13 +23,16 @@ import struct
 from run import Broken, Violation
 from builders import c14docs as B
 
-GEN = ["Images", "ImageParts", "PyZipUtils", "PyPptxPaths", "PyXlsxPaths", "PyDocxPaths", "PyOdfPaths", "PyEpubPaths"]
+GEN = ["Images", "ImageParts", "ImageRels", "PyZipUtils", "PyPptxPaths", "PyXlsxPaths", "PyDocxPaths", "PyOdfPaths", "PyEpubPaths"]
 RULE = ("documents: format x 0..4 units x 0..4 anchors per unit, plus per format documents with 11..13 numbered parts (pictures on one of the "
         "parts 2..9 and on one of the parts >= 10, <= 12 picture files, sometimes 11..12 anchors on one part; PPTX part numbers permuted "
         "against the deck order; DOCX ids rId2..rId13); PDF image XObject = codec (DCT/JPX/Flate/LZW) x 0..3 transport filters x "
         "name | one-element array | chain, +/- /DecodeParms; /Filter values (absent, name, array of 0..4 known/unknown names) on real "
         "pypdf streams; anchor = embedded file referenced in a relative / parent-relative / "
-        "absolute / dotted form | referenced-but-missing member | external link; files = PNG/JPEG/GIF/BMP headers of random "
+        "absolute / dotted form; OOXML relationships parts (worksheet, drawing, slide, presentation, main document) additionally list "
+        "0..3 SIBLING relationships of the other kinds the standard allows on that part (vmlDrawing, comments, hyperlink, chart, "
+        "slideLayout, settings, ...; six namespaces; before / between / after the relationship the image path uses; targets that "
+        "contain the words 'drawing' / 'image'; stub parts for VML drawings and comments) | referenced-but-missing member | external link; files = PNG/JPEG/GIF/BMP headers of random "
         "sizes with distinct tails, some shared between anchors; resolvers: (directory, target) over a segment alphabet "
         "incl. '.', '..', '', leading '/' (+ malformed: unicode, backslash, percent); sniffers: well-formed headers, truncations, "
         "JPEG segment chains with padding / stand-alone markers / cut frames (+ malformed: random bytes). "
@@ -42,6 +45,8 @@ ASSUMPTIONS = [
     "pypdf: /XObject dictionary, content-stream Do operators and get_data() incl. its decoding of the transport filters "
     "(/FlateDecode, /LZWDecode, /ASCII85Decode, /ASCIIHexDecode, /RunLengthDecode; /DCTDecode and /JPXDecode pass the file through) "
     "(PDF side is only tied by this correspondence)",
+    "relationship Type URIs of generated parts are of the inventory of Model/ImageRels.lean (namespace x kind); the theorems of "
+    "Props/C14_Rels.lean say nothing about a Type outside it (custom namespaces)",
     "openpyxl sheet names (XLSX sheet list); the model takes sheet k's drawing from sheet{k}.xml.rels as the code does",
     "mimetypes.guess_type for ODF content types; EPUB content type is the manifest's media-type (pass-through)",
     "str.lower() on ASCII extensions; ODT text-box (captioned) first pass is not modelled (generated frames are plain)",
@@ -388,6 +393,19 @@ def model_request(spec, names):
                 tgt, f = B.xlsx_drawing_target(spec, i)
                 req["rels"].append([f"xl/worksheets/_rels/sheet{f}.xml.rels", tgt])
                 req["drawings"].append([f"xl/drawings/drawing{f}.xml", [[kinds[a.get("anchor", "two")], (a["ref"] if a["t"] != "external" else None)] for a in u]])
+        # ... and as the relationships parts list it: every relationship (Id, Type, Target) of every worksheet / drawing
+        # relationships part, in the order of the part; the model selects by the guards of the source
+        req["sheet_parts"], req["drawing_parts"] = [], []
+        for i, u in enumerate(spec["units"]):
+            tgt, f = B.xlsx_drawing_target(spec, i)
+            srels, _ = B.with_sibs(spec, "sheet", i, [("rId1", B.R_NS + "/drawing", tgt, False)] if u else [])
+            if srels:
+                req["sheet_parts"].append([f"xl/worksheets/_rels/sheet{f}.xml.rels", [[r[0], r[1], r[2]] for r in srels]])
+            if u:
+                drels, _ = B.with_sibs(spec, "drawing", i, [(f"rId{k + 1}", B.IMG_T, a["ref"], a["t"] == "external") for k, a in enumerate(u)])
+                req["drawing_parts"].append([f"xl/drawings/drawing{f}.xml",
+                                             [[kinds[a.get("anchor", "two")], (f"rId{k + 1}" if a["t"] != "external" else None)] for k, a in enumerate(u)],
+                                             [[r[0], r[1], r[2]] for r in drels]])
     elif fmt == "docx":
         rid_of, rels = B.docx_rels(spec)
         req["units"] = [["rId1", False, "styles.xml"]] + [[i, True, t] for i, _, t, _ in rels]
@@ -397,6 +415,8 @@ def model_request(spec, names):
                 if a["t"] != "external" and rid_of[(a["t"], a["ref"])] not in body:
                     body.append(rid_of[(a["t"], a["ref"])])
         req["body"] = body
+        full, _ = B.with_sibs(spec, "doc", None, [("rId1", B.R_NS + "/styles", "styles.xml", False)] + rels)
+        req["rel_parts"] = [[r[0], r[1], r[2]] for r in full]
     elif fmt == "epub":
         req["opf_dir"] = spec.get("opts", {}).get("opf_dir", "OEBPS/")
         req["units"] = [[m.startswith("image/"), h] for _, h, m in B.epub_items(spec)]
@@ -473,6 +493,66 @@ def _pdf_media(rng, idx, m):
     if rng.random() < 0.2:
         m["parms"] = True
     return m
+
+
+SIB_KINDS = {
+    "sheet": ["vmlDrawing", "comments", "threadedComment", "hyperlink", "printerSettings", "table", "tableSingleCells", "pivotTable",
+              "queryTable", "oleObject", "package", "control", "ctrlProp", "customProperty", "image", "slicer", "timeline", "wsSortMap"],
+    "drawing": ["chart", "chartEx", "chartUserShapes", "hyperlink", "diagramData", "diagramLayout", "diagramQuickStyle", "diagramColors",
+                "diagramDrawing", "video", "audio", "media", "hdphoto", "oleObject", "package", "customXml", "vmlDrawing"],
+    "doc": ["settings", "webSettings", "fontTable", "theme", "hyperlink", "customXml", "oleObject", "package", "chart", "diagramData",
+            "aFChunk", "attachedTemplate", "video", "hdphoto", "control", "vbaProject", "keyMapCustomizations", "glossaryDocument"],
+    "slide": ["slideLayout", "notesSlide", "hyperlink", "chart", "video", "audio", "media", "oleObject", "vmlDrawing", "tags", "customXml",
+              "hdphoto", "diagramData", "slide"],
+    "pres": ["slideMaster", "notesMaster", "handoutMaster", "theme", "presProps", "viewProps", "tableStyles", "commentAuthors", "customXml"],
+}
+SIB_COMMON = {"sheet": ["vmlDrawing", "vmlDrawing", "comments", "hyperlink", "printerSettings", "table"], "drawing": ["chart", "hyperlink", "vmlDrawing"],
+              "doc": ["settings", "hyperlink", "theme", "fontTable"], "slide": ["slideLayout", "notesSlide", "hyperlink"],
+              "pres": ["slideMaster", "theme", "presProps"]}
+SIB_TARGET = {"vmlDrawing": "../drawings/vmlDrawing{n}.vml", "comments": "../comments{n}.xml", "printerSettings": "../printerSettings/printerSettings{n}.bin",
+              "table": "../tables/table{n}.xml", "chart": "../charts/chart{n}.xml", "slideLayout": "../slideLayouts/slideLayout{n}.xml",
+              "notesSlide": "../notesSlides/notesSlide{n}.xml", "slideMaster": "slideMasters/slideMaster{n}.xml", "theme": "theme/theme{n}.xml",
+              "settings": "settings.xml", "webSettings": "webSettings.xml", "fontTable": "fontTable.xml", "presProps": "presProps.xml",
+              "viewProps": "viewProps.xml", "tableStyles": "tableStyles.xml", "image": "../media/background{n}.png", "slide": "slide{n}00.xml",
+              "oleObject": "../embeddings/oleObject{n}.bin", "package": "../embeddings/Microsoft_Excel_Sheet{n}.xlsx"}
+SIB_ANY_EXTERNAL = ["http://example.org/drawing/image{n}.png", "file:///C:/media/image{n}.bin", "#bookmark{n}", "mailto:a{n}@example.org", "../linked/image{n}.png",
+                    "\\\\server\\share\\drawing{n}.xml"]
+SIB_EXTERNAL = {"hyperlink": ["http://example.org/drawing/image{n}.png", "https://example.org/image/drawing{n}.xml", "#Sheet2!A1", "mailto:a{n}@example.org",
+                              "file:///C:/docs/image{n}.docx"],
+                "video": ["file:///C:/media/image{n}.mp4"], "audio": ["file:///C:/media/drawing{n}.wav"], "attachedTemplate": ["file:///C:/image{n}.dotx"]}
+SIB_WHERE = {"xlsx": ("sheet", "drawing"), "pptx": ("slide", "pres"), "docx": ("doc",)}
+
+
+def gen_sibs(rng, fmt, units):
+    """sibling relationships for the relationships parts the image path of an OOXML document goes through"""
+    out = []
+    n = [0]
+
+    def some(where, ui, n_base):
+        for _ in range(rng.choice([1, 1, 2, 3]) if where not in ("doc", "pres") else rng.choice([1, 2, 2, 3, 4])):
+            n[0] += 1
+            kind = rng.choice(SIB_COMMON[where]) if rng.random() < 0.5 else rng.choice(SIB_KINDS[where])
+            e = {"where": where, "unit": ui, "kind": kind, "id": f"rId{100 + n[0]}", "ns": rng.choice([0, 0, 0, 0, 1, 2, 3, 4, 5]),
+                 "at": 0 if rng.random() < 0.5 else rng.randint(0, n_base + 3)}
+            if kind in SIB_EXTERNAL or rng.random() < 0.15:       # TargetMode="External": a link to something outside the package
+                e["target"], e["ext"] = rng.choice(SIB_EXTERNAL.get(kind, SIB_ANY_EXTERNAL)).format(n=n[0]), True
+            else:
+                e["target"] = SIB_TARGET.get(kind, "../" + kind + "s/" + kind + "{n}.xml").format(n=n[0])
+                if where == "sheet" and kind in ("vmlDrawing", "comments") and rng.random() < 0.7:
+                    e["stub"] = True
+            out.append(e)
+
+    for where in SIB_WHERE[fmt]:
+        if where in ("pres", "doc"):
+            if rng.random() < 0.85:
+                some(where, None, len(units))
+            continue
+        for ui, u in enumerate(units):
+            if where == "drawing" and not u:
+                continue
+            if rng.random() < (0.6 if u else 0.25):
+                some(where, ui, len(u) if where != "sheet" else 1)
+    return out
 
 
 def gen_spec(rng, fmt, wild=False, many=False):
@@ -597,6 +677,10 @@ def gen_spec(rng, fmt, wild=False, many=False):
         opts["rid_base"] = 2
     if fmt == "epub" and rng.random() < 0.3:
         opts["items_images_first"] = True
+    if fmt in SIB_WHERE and rng.random() < 0.7:
+        sib = gen_sibs(rng, fmt, units)
+        if sib:
+            opts["sib"] = sib
     spec = {"fmt": fmt, "media": media, "units": units, "opts": opts}
     # generator self-check: an "embed" anchor must designate its part by the oracle's own resolution
     for ui, u in enumerate(units):
@@ -829,6 +913,14 @@ def correspondence(ctx):
         ctx.count(f"sniff/{rq['fn']}/" + ("dims" if got[0] is not None or got[1] is not None else "none"))
         if (o.get("w"), o.get("h")) != got:
             note(f"c14.sniff/{rq['fn']}", f"impl={got!r} model={(o.get('w'), o.get('h'))!r}", {"fn": rq["fn"], "kind": rq.get("kind"), "d": d.hex()})
+    # (3b) the sibling kinds / namespaces the generator uses are of the inventory the theorems of Props/C14_Rels quantify over
+    inv = ctx.drive([{"op": "c14.relkinds"}])[0]
+    for where, key in (("sheet", "sheet"), ("drawing", "drawing"), ("doc", "document")):
+        extra = [k for k in SIB_KINDS[where] + SIB_COMMON[where] if k not in inv.get(key, [])]
+        if extra:
+            note("c14.relkinds", f"generated {where} relationship kinds outside the Lean inventory: {sorted(set(extra))}", {})
+    if inv.get("ns") != B.REL_NAMESPACES:
+        note("c14.relkinds", f"namespaces of the builder {B.REL_NAMESPACES} differ from the Lean inventory {inv.get('ns')}", {})
     # (4) documents
     cases = []
     per_fmt = ctx.n(36, 400)
@@ -858,6 +950,14 @@ def correspondence(ctx):
         n_anchor = sum(len(u) for u in spec["units"])
         ctx.case(("doc", json.dumps(spec, sort_keys=True)), nontrivial=n_anchor > 0)
         ctx.count(f"doc/{fmt}/" + ("no-anchor" if n_anchor == 0 else "anchors"))
+        sib = spec.get("opts", {}).get("sib", [])
+        if sib:
+            ctx.count(f"doc/{fmt}/sibling-relationships")
+            for e in sib:
+                ctx.count(f"sibling/{e['where']}/{e['kind']}" + ("/first" if e.get("at", 0) == 0 else ""))
+            if any(e.get("at", 0) == 0 and e["where"] in ("sheet", "slide", "drawing") and spec["units"][e["unit"]] for e in sib) or \
+               any(e.get("at", 0) <= 1 and e["where"] in ("doc", "pres") for e in sib):
+                ctx.count(f"doc/{fmt}/sibling-listed-before-the-used-relationship")
         if len(spec["units"]) >= 11:
             ctx.count(f"doc/{fmt}/parts>=11")
         if any(len(u) >= 11 for u in spec["units"]):
@@ -877,6 +977,9 @@ def correspondence(ctx):
         if "units_pkg" in o and got != o["units_pkg"]:
             note(f"c14.extract/{fmt}/from-package", f"impl={got} model={o['units_pkg']}", {"spec": spec})
             continue
+        if "units_rels" in o and got != o["units_rels"]:
+            note(f"c14.extract/{fmt}/by-relationship-kind", f"impl={got} model={o['units_rels']}", {"spec": spec})
+            continue
         # PDF: format / filter / content type of every returned XObject through the model's filter-chain reading
         if fmt == "pdf":
             rq3, exp3 = [], []
@@ -895,7 +998,7 @@ def correspondence(ctx):
         # what the model does not speak about (content type / pixel size outside OOXML, bytes, views) is judged here
         for k, w in check_doc(spec, obs):
             if k not in OPEN_WITNESSES and not any(v.key == k for v in violations):
-                violations.append(Violation(k, f"{fmt} document {json.dumps(spec['units'])[:160]}: {w}", {"spec": spec}))
+                violations.append(Violation(k, f"{fmt} document {json.dumps(spec['units'])[:160]}{_sib_note(spec)}: {w}", {"spec": spec}))
         # content type and size of the OOXML images through the model's functions
         if fmt in ("docx", "pptx", "xlsx"):
             rq2, exp2 = [], []
@@ -990,6 +1093,10 @@ WITNESSES = {
                                 "opts": {"rels_order": [1, 0]}},
     "xlsx.unknown-size-metadata": {"fmt": "xlsx", "media": {"xl/media/a.tiff": {"kind": "raw", "w": 0, "h": 0, "tail": "49492a0008000000"}},
                                    "units": [[{"t": "embed", "part": "xl/media/a.tiff", "ref": "../media/a.tiff", "anchor": "two"}]], "opts": {}},
+    "xlsx.vml-drawing-listed-first": {"fmt": "xlsx", "media": {"xl/media/a.png": _png(1)},
+                                      "units": [[{"t": "embed", "part": "xl/media/a.png", "ref": "../media/a.png", "anchor": "two"}]],
+                                      "opts": {"sib": [{"where": "sheet", "unit": 0, "kind": "vmlDrawing", "id": "rId101", "ns": 0, "at": 0, "target": "../drawings/vmlDrawing1.vml", "stub": True},
+                                                       {"where": "sheet", "unit": 0, "kind": "comments", "id": "rId102", "ns": 0, "at": 9, "target": "../comments1.xml", "stub": True}]}},
     "pdf.numbers-restart": {"fmt": "pdf", "media": {"a": {"kind": "jpeg", "w": 20, "h": 10, "tail": "ffd9"}, "b": {"kind": "jpeg", "w": 8, "h": 9, "tail": "01ffd9"}},
                             "units": [[{"t": "embed", "part": "a"}], [{"t": "embed", "part": "b"}]], "opts": {}},
 }
@@ -1024,8 +1131,13 @@ def known_witnesses(ctx):
 
 
 # ----------------------------------------------------------------------------- search / replay
+def _sib_note(spec):
+    sib = spec.get("opts", {}).get("sib", [])
+    return (" [sibling relationships: " + ", ".join(f"{e['where']}{'' if e.get('unit') is None else e['unit'] + 1}:{e['kind']}@{e.get('at', 0)}" for e in sib[:6]) + "]") if sib else ""
+
+
 def _doc_violations(spec):
-    return [Violation(k, f"{spec['fmt']} document {json.dumps(spec['units'])[:160]}: {w}", {"spec": spec}) for k, w in check_doc(spec)]
+    return [Violation(k, f"{spec['fmt']} document {json.dumps(spec['units'])[:160]}{_sib_note(spec)}: {w}", {"spec": spec}) for k, w in check_doc(spec)]
 
 
 def _resolver_probe(fn, a, t):
